@@ -72,10 +72,27 @@ def do_call(ex, n, st):
             return call_repo(ex, f.qual, None, args, kw, st, n)
         return call_repo(ex, f.qual, recv, args, kw, st, n)
     if isinstance(f, ClassVal):
-        return call_repo(ex, f.qual + '.__init__', f, args, kw, st, n, ctor=True)
+        return construct(ex, f, args, kw, st, n)
     if isinstance(f, ExternVal):
         raise SymErr('call to external %s (line %d) without a model' % (f.name, n.lineno))
     raise SymErr('call of %r (line %d)' % (f, n.lineno))
+
+
+def construct(ex, cls, args, kw, st, node):
+    """cls(...): allocate the record, run the real __init__ (its contract, or inlined)."""
+    ci = source.class_info(cls.qual)
+    obj = st.alloc({}, cls.qual)
+    init = ci['methods'].get('__init__')
+    if init is None:
+        if args or kw:
+            raise SymErr('constructor arguments without __init__')
+        return obj
+    if init not in ex.reg and init not in getattr(ex.c, 'inline', ()):
+        raise SymErr('constructor %s (line %d): no contract and not inlined' % (init, node.lineno))
+    r = call_repo(ex, init, obj, args, kw, st, node)
+    if isinstance(r, RaisedValue):
+        return r
+    return obj
 
 
 def bind_args(fsrc, recv, args, kw, ex, st):
@@ -157,6 +174,17 @@ def apply_contract(ex, callee, bound, st, node):
         if ex.decide(cond, st):
             return RaisedValue(exc)
     old = Kit(st.copy(), ex)
+    upd = callee.update(old, bound)
+    if upd is not None:
+        done = set()
+        for ref, want in upd:
+            cur = st.heap[ref.id]
+            st.write_cell(ref, SSeq.of(want).with_kind(cur.kind))
+            done.add(ref.id)
+        if any(r.id not in done for r in callee.modifies(K, bound)):
+            raise SymErr('update() of %s does not cover its modifies set' % callee.target)
+        res = Result('return', callee.result(K, bound))
+        return res.value
     for ref in callee.modifies(K, bound):
         cur = st.heap[ref.id]
         if isinstance(cur, dict):
@@ -182,8 +210,10 @@ def comprehension(ex, n, st, kind):
     items, cnt, item = iteration_space(ex, fake, st)
     base = st
 
-    def elem(v, record):
-        s2 = base.copy() if record else base.copy()
+    def elem(v, record, idx=None):
+        s2 = base.copy()
+        if idx is not None and not isinstance(idx, int):
+            s2.assume(AND(idx >= 0, idx < cnt))     # element terms are only used for in-range indices
         ex.assign(g.target, v, s2, n)
         if record:
             return s2, ex.freeze(ex.ev(n.elt, s2), s2)
@@ -202,9 +232,9 @@ def comprehension(ex, n, st, kind):
     k = V.fresh_int('ci')
     s2 = base.copy()
     s2.assume(AND(k >= 0, k < cnt))
-    ex.assign(g.target, item(k), s2, n)
+    ex.assign(g.target, ex.with_sink(s2, n, lambda: item(k)), s2, n)
     ex.ev(n.elt, s2)
-    return SSeq(cnt, lambda i: elem(item(i), False)[1], 'list')
+    return SSeq(cnt, lambda i: elem(item(i), False, i)[1], 'list')
 
 
 # ------------------------------------------------------------------ builtins
@@ -226,7 +256,12 @@ def elem_len(sq):
                 return None
             ls.add(e.n)
         return ls.pop() if len(ls) == 1 else None
-    e = sq.get(V.fresh_int('probe'))
+    old = E.sink
+    E.sink = None                     # a probe for the element shape only; raises no obligations
+    try:
+        e = sq.get(V.fresh_int('probe'))
+    finally:
+        E.sink = old
     if isinstance(e, (SSeq, bytes, str)):
         e = SSeq.of(e)
         if isinstance(e.n, int):
@@ -242,6 +277,11 @@ def join(ex, sep, parts, st, node):
     if isinstance(parts, tuple):
         parts = SSeq.of([ex.freeze(p, st) for p in parts], 'list')
     sq = seq_arg(ex, parts, st)
+    if isinstance(sq.n, int) and sq.n > 12:
+        L = elem_len(sq)
+        if L is not None and L > 0:
+            g = sq.get
+            return SSeq(sq.n * L, lambda k: SSeq.of(g(k // L)).get(k % L), kind)
     if isinstance(sq.n, int):
         r = SSeq.of([] if kind != 'str' else '', kind)
         r = SSeq(0, lambda k: 0, kind)
@@ -342,7 +382,7 @@ def call_builtin(ex, name, args, kw, st, node):
 
 
 def ascii_only(ex, sq, st, node, kind):
-    if isinstance(sq.n, int) and sq.n <= 32:
+    if isinstance(sq.n, int) and sq.n <= 600:
         for i in range(sq.n):
             x = sq.get(i)
             if isinstance(x, int):
@@ -536,8 +576,11 @@ def call_seq_method(ex, recv, name, A, kw, st, node):
 
 def model_rstrip(ex, sq, st, node):
     n = sq.n
-    if isinstance(n, int) and n <= 4:
-        raise SymErr('rstrip of tiny concrete sequence')
+    if isinstance(n, int) and n <= 600:
+        m = n
+        while m > 0 and ex.decide(is_ws(sq.get(m - 1)), st):
+            m -= 1
+        return sq.slice(0, m)
     m = V.fresh_int('rstrip')
     st.assume(AND(m >= 0, m <= n, forall(m, n, lambda k: is_ws(sq.get(k))),
                   OR(m == 0, NOT(is_ws(sq.get(m - 1))))))
